@@ -22,6 +22,7 @@ CLAIM = dict(
     note="Not decided: verdict equality across thread counts (schedule property), races on state that carries no annotation.",
     ref="DESIGN.md §3 C14")
 
+TSA_WHOLE_TREE = True
 RELAXED, ACQUIRE, RELEASE = 0, 2, 3
 
 
